@@ -129,6 +129,14 @@ def main(argv):
     t0 = time.time()
     mod = importlib.import_module("harness." + pid.lower())
     parts = mod.partitions(tier, seed)
+    n_first = 0
+    if tier == "thorough":
+        # thorough = every partition of the quick tier first, then the (much larger) thorough space in a
+        # seed-rotated order for as long as the wall budget lasts; what is not reached is listed as not run
+        first = mod.partitions("quick", seed)
+        ids = {p["id"] for p in first}
+        parts = first + [p for p in parts if p["id"] not in ids]
+        n_first = len(first)
     meta = getattr(mod, "META", {})
     deadline = t0 + float(meta.get("wall_budget_s", {}).get(tier, 280 if tier == "quick" else 1500))
     for p in parts:
@@ -140,7 +148,11 @@ def main(argv):
 
     order = list(range(len(parts)))
     _random.Random(seed).shuffle(order)  # which partitions a wall-budgeted run reaches rotates with the seed
-    order.sort(key=lambda i: -parts[i]["budget_s"])
+    if tier == "thorough":
+        head = sorted([i for i in order if i < n_first], key=lambda i: -parts[i]["budget_s"])
+        order = head + [i for i in order if i >= n_first]
+    else:
+        order.sort(key=lambda i: -parts[i]["budget_s"])
     nproc = int(os.environ.get("VERIF_JOBS", "16"))
     per_batch = max(1, min(12, len(parts) // (nproc * 6)))
     batches = [order[i:i + per_batch] for i in range(0, len(order), per_batch)]
